@@ -227,6 +227,8 @@ func c01Decos(base *XElem, thorough bool) []Deco {
 			}
 			// one text run written as plain text and a CDATA section side by side (either order): the value is the whole run
 			ds = append(ds, Deco{Kind: 't', El: i, Pos: pos, Value: "x1 <2", Split: 2}, Deco{Kind: 't', El: i, Pos: pos, Value: "4&5", Split: -2})
+			// ... and in three pieces whose middle one is blank: CDATA, blank text, CDATA / text, blank CDATA, text
+			ds = append(ds, Deco{Kind: 't', El: i, Pos: pos, Value: "al be", Split: -2, Split2: 3}, Deco{Kind: 't', El: i, Pos: pos, Value: "x \ty", Split: 1, Split2: 3})
 			ds = append(ds, Deco{Kind: 'c', El: i, Pos: pos, Value: " c "})
 			if pos == 0 || thorough {
 				ds = append(ds, Deco{Kind: 'p', El: i, Pos: pos, Value: "do it"})
@@ -310,7 +312,7 @@ func c01Cfgs(maxDev int) []Cfg {
 
 func c01Run(c *Ctx) {
 	mustBeDefault(c)
-	c.S.Rule = "cases = (document, rendering, configuration): documents are all element trees with <= N elements (child names over {a,b}, fan-out <= 3) decorated with <= D decorations (attribute incl. namespaced/case/snake variants and a name colliding with a child under an empty prefix; one text run at every position, plain or CDATA, with blanks/specials/number and boolean look-alikes; comment / processing instruction at every position; renamed element: case, hyphen/underscore, namespace prefix); every document (quick: trees with fewer than N elements) x all 768 configurations (3 attribute prefixes x 2 key prefixes x 2^7 of lower, [plus the attribute prefix 'A_' with a capital letter under key folding] snake, simple-as-map, keep-spaces, seq numbers, decoder escaping, cast) for <= 1 decoration, and x all configurations with <= 2 option deviations for 2 decorations; plus all 8 combinations of the cast-to-int/float/bool sub-options with the cast flag on; a scale family (33-1025 repeated and interleaved siblings, 33/129 attributes, nesting depth 64/300, text and names of 300/5000 bytes) under configurations with <= 1 deviation; rendering variants (empty-element form, quoting, blanks in tags, inter-element whitespace, prolog, character references) explored one deviation at a time. non-trivial = expected Map contains a list, a text key or an attribute."
+	c.S.Rule = "cases = (document, rendering, configuration): documents are all element trees with <= N elements (child names over {a,b}, fan-out <= 3) decorated with <= D decorations (attribute incl. namespaced/case/snake variants and a name colliding with a child under an empty prefix; one text run at every position, plain or CDATA or written as two or three adjacent plain/CDATA pieces incl. a blank middle piece, with blanks/specials/number and boolean look-alikes; comment / processing instruction at every position; renamed element: case, hyphen/underscore, namespace prefix); every document (quick: trees with fewer than N elements) x all 768 configurations (3 attribute prefixes x 2 key prefixes x 2^7 of lower, [plus the attribute prefix 'A_' with a capital letter under key folding] snake, simple-as-map, keep-spaces, seq numbers, decoder escaping, cast) for <= 1 decoration, and x all configurations with <= 2 option deviations for 2 decorations; plus all 8 combinations of the cast-to-int/float/bool sub-options with the cast flag on; a scale family (33-1025 repeated and interleaved siblings, 33/129 attributes, nesting depth 64/300, text and names of 300/5000 bytes) under configurations with <= 1 deviation; rendering variants (empty-element form, quoting, blanks in tags, inter-element whitespace, prolog, character references) explored one deviation at a time. non-trivial = expected Map contains a list, a text key or an attribute."
 	c.S.Assumptions = []string{"reference decode conventions in harness/ref_xml.go, computed from the abstract tree", "_seq accepted as int or digit string", "attribute values containing tab/newline are rendered as character references"}
 	maxElems, maxElems2 := 4, 3
 	if c.Thorough {
